@@ -1,5 +1,5 @@
 SPECIFICATION Spec
-CONSTANT MaxCount = 16383
+CONSTANT MaxCount = 2047
 INVARIANT StateIsFunctionOfCount
 PROPERTY DecUndoesInc
 CHECK_DEADLOCK FALSE
